@@ -20,7 +20,7 @@ def applies(tree, patch):
 
 
 def main():
-    base = os.path.join(VERIF, "seeded")
+    base = os.path.join(VERIF, sys.argv[1] if len(sys.argv) > 1 else "seeded")
     head = run("git", "-C", "/repo", "rev-parse", "HEAD").stdout.strip()
     commits = run("git", "-C", "/repo", "log", "--format=%H").stdout.split()
     wt = tempfile.mkdtemp(prefix="sievelib-rebase-")
